@@ -248,11 +248,12 @@ func (seg *Segment) Match(ctx *types.Context) bool {
 					return true
 				}
 
-				i := strings.Index(ctx.Path[index+len(seg.Suffix):], seg.Suffix)
+				// 从下一个字节开始查找，Suffix 可能与自身重叠，比如 -- 之于 ---。
+				i := strings.Index(ctx.Path[index+1:], seg.Suffix)
 				if i < 0 {
 					return false
 				}
-				index += i + len(seg.Suffix)
+				index += i + 1
 			}
 		}
 	case Regexp:
